@@ -2,5 +2,5 @@
 # scratch.sh NAME PATCH — scratch copy of /repo with PATCH applied at /tmp/scr/NAME; prints the env to use
 set -e
 D=/tmp/scr/$1; rm -rf $D; mkdir -p $D/repo; rsync -a --exclude target --exclude .git /repo/ $D/repo/
-patch -p1 -s --no-backup-if-mismatch -d $D/repo -i $2
+patch -p1 -s --no-backup-if-mismatch -d $D/repo -i $(realpath $2)
 echo "JL_REPO=$D/repo JL_EVIDENCE_DIR=$D/evidence JL_CACHE=/verif/.cache/scr"
